@@ -162,7 +162,7 @@ class LinkLevel(Obj):
         k = I.k
         ctx.oblige("callee-pre.notify_child_modified:concrete-time", t > 0, kind="callee-pre")
         ctx.oblige("callee-pre.notify_child_modified:level-in-range(termination)",
-                   z3.And(self.P >= 1, self.P <= ch.D + 1), kind="callee-pre")
+                   z3.And(self.P >= 0, self.P <= ch.D + 1), kind="callee-pre")
         pre = snapshot(ch, ctx)
         for nm in ("lmt", "rcm", "notif", "nlast"):
             ctx.write(Loc((ch.oid, nm)), ctx.fresh("ch_" + nm, pre[nm].sort()))
@@ -325,7 +325,7 @@ class NotifyChildModified(C04Kernel):
         ch = self.make_chain(I)
         self.P = z3.Int("parent_level")
         self.t = z3.Int("mutation_time")
-        I.ctx.assume(z3.And(self.P >= 1, self.P <= ch.D + 1, self.t > 0, self.t <= MAX_DT))
+        I.ctx.assume(z3.And(self.P >= 0, self.P <= ch.D + 1, self.t > 0, self.t <= MAX_DT))
         return LinkLevel(ch, self.P), {"mutation_time": self.t}
 
     def post(self, I, ret):
@@ -522,3 +522,199 @@ class MarkModified(C04Kernel):
 
 
 KERNELS = [RecordModified, NotifyChildModified, ViewModified, ViewLastModified, ViewDeltaValue, MarkModified]
+
+
+# ------------------------------------------------------------------ K4b mutation view: invalidate
+
+
+class ChildRef(Obj):
+    cls = "TSDataChildRef"
+
+    def __init__(self, k, idx):
+        Obj.__init__(self, name="child_ref")
+        self.k, self.idx = k, idx
+
+    def member(self, ctx, name, node):
+        if name == "type":
+            return ChildType(self.k, self.idx)
+        if name == "data":
+            return Ptr(Obj("mem", "child_memory"), z3.Not(self.k.child_has_data[self.idx]))
+        raise Gap("child_ref member %s" % name)
+
+
+class ChildType(Obj):
+    cls = "TSRoleTypeRef"
+
+    def __init__(self, k, idx):
+        Obj.__init__(self, name="child_type")
+        self.k, self.idx = k, idx
+
+    def truth(self, I):
+        return self.k.child_has_type[self.idx]
+
+    def m_capabilities(self, I, args, n):
+        return self
+
+
+class ChildMutation(Obj):
+    cls = "TSDataMutationView(child)"
+
+    def __init__(self, k, idx):
+        Obj.__init__(self, name="child_mutation")
+        self.k, self.idx = k, idx
+
+    def m_invalidate(self, I, args, n):
+        """recursive contract (induction on the height of the tree below): a child that held a value loses it and
+        reports to this node through its parent link -- exactly notify_child_modified(t) at chain level 0"""
+        ctx = I.ctx
+        k = self.k
+        had = ctx.fresh("child_had_value", "bool")
+        if ctx.decide(had, "child.invalidate had value"):
+            LinkLevel(k.ch, z3.IntVal(0)).m_notify_child_modified(I, [k.T], n)
+            ctx.write(Loc((k.g.oid, "children_invalidated")), ctx.store[(k.g.oid, "children_invalidated")] + 1)
+        return had
+
+
+class Invalidate(C04Kernel):
+    name = "base_view.cpp:TSDataMutationView::invalidate"
+    tu = "src/hgraph/types/time_series/ts_data/base_view.cpp"
+    filter = "TSDataMutationView::invalidate"
+    fn_name = "invalidate"
+    title = "invalidate: children first, then observers and parent are told, and the node ends never-modified"
+
+    def setup(self, I):
+        ctx = I.ctx
+        ch = self.make_chain(I)
+        self.T = z3.Int("mutation_time")
+        ctx.assume(z3.And(self.T >= 1, self.T <= MAX_DT))
+        ctx.assume(z3.ForAll([ql], self.pre["lmt"][ql] <= self.T))
+        th = Obj("TSDataMutationView", "this_mutation")
+        self.th = th
+        self.storage = Obj("TSDataStorageRef", "storage")
+        ctx.store[(th.oid, "mutation_time_")] = self.T
+        ctx.store[(th.oid, "storage_")] = self.storage
+        self.has_value = z3.Bool("has_current_value")
+        self.has_ownership = z3.Bool("has_ownership_ops")
+        self.nchildren = z3.Int("child_count")
+        ctx.assume(self.nchildren >= 0)
+        self.child_has_type = z3.Array("child_has_type", I_, z3.BoolSort())
+        self.child_has_data = z3.Array("child_has_data", I_, z3.BoolSort())
+        self.child_mutable = z3.Array("child_mutable", I_, z3.BoolSort())
+        g = Obj("ghost", "ig")
+        self.g = g
+        ctx.store[(g.oid, "children_invalidated")] = z3.IntVal(0)
+        self.table = OpsTable(ch, z3.IntVal(0), self)
+        return th, {}
+
+    def ops_member(self, table, ctx, name, node):
+        if name == "ownership_ops":
+            return Ptr(OwnershipOps(self), z3.Not(self.has_ownership))
+        return None
+
+    def method_handler(self, obj, name, node):
+        k = self
+        if obj is self.th:
+            if name == "require_active_mutation":
+                return lambda I, o, a, n: VOID
+            if name == "view":
+                return lambda I, o, a, n: CurrentView(k)
+        if obj is self.storage and name == "data":
+            return lambda I, o, a, n: Ptr(MemLevel(self.ch, z3.IntVal(0)), z3.BoolVal(False))
+        return Kernel.method_handler(self, obj, name, node)
+
+    def function_handler(self, name, node, callee_node):
+        if name == "has_capability":
+            return lambda I, a, n: self.child_mutable[I.ctx.rv(a[0]).idx]
+        return Kernel.function_handler(self, name, node, callee_node)
+
+    def enum_const(self, I, ref):
+        return z3.IntVal(1)
+
+    def ctor_handler(self, qt, node):
+        if qt.endswith("TSDataMutationView"):
+            def mk(I, args, n):
+                v = I.ctx.rv(args[0])
+                I.ctx.oblige("child-mutation-at-the-same-time", I.ctx.rv(args[1]) == self.T, kind="callee-pre")
+                return ChildMutation(self, v.idx)
+            return mk
+        if qt.endswith("TSDataView"):
+            def mkv(I, args, n):
+                a = I.ctx.rv(args[0])
+                if isinstance(a, ChildType):
+                    o = Obj("TSDataView", "child_view")
+                    o.idx = a.idx
+                    return o
+                return a
+            return mkv
+        return Kernel.ctor_handler(self, qt, node)
+
+    def inv(self, I, ctx):
+        ch = self.ch
+        i = self.local(I, "index")
+        lmt = ch.arr(ctx, "lmt")
+        yield "index-range", z3.And(i >= 0, i <= self.nchildren)
+        yield "chain-only-moves-forward-up-to-T", z3.ForAll([ql], z3.And(lmt[ql] >= self.pre["lmt"][ql], lmt[ql] <= self.T))
+        yield "notifications-only-grow", z3.ForAll([ql], z3.And(ch.arr(ctx, "notif")[ql] >= self.pre["notif"][ql],
+                                                               ch.arr(ctx, "rcm")[ql] >= self.pre["rcm"][ql]))
+        yield "endpoint-calls-only-grow", ctx.store[(ch.oid, "ep_calls")] >= self.pre["ep_calls"]
+
+    def frame(self, I, ctx):
+        ch = self.ch
+        return [Loc((ch.oid, nm)) for nm in ("lmt", "rcm", "notif", "nlast", "ep_calls", "ep_last_t")] + [
+            Loc((self.g.oid, "children_invalidated"))]
+
+    @property
+    def loops(self):
+        return {0: LoopSpec(self.inv, self.frame)}
+
+    def post(self, I, ret):
+        ctx = I.ctx
+        ch = self.ch
+        ctx.oblige("ensures.returns-whether-there-was-a-value", ret == self.has_value, kind="post-normal")
+        ctx.oblige("ensures.no-value=>nothing-happens", z3.Implies(z3.Not(self.has_value), z3.And(*[
+            ch.arr(ctx, nm) == self.pre[nm] for nm in ("lmt", "rcm", "notif", "nlast")])), kind="post-normal")
+        ctx.oblige("ensures.node-ends-never-modified[C04 valid is false after an explicit invalidation; modified never reads "
+                   "true for it afterwards]", z3.Implies(self.has_value, ch.arr(ctx, "lmt")[0] == 0), kind="post-normal")
+        ctx.oblige("ensures.observers-told-at-the-invalidation-time[C04 consumers see the same validity as the producer]",
+                   z3.Implies(self.has_value, z3.And(ch.arr(ctx, "notif")[0] >= self.pre["notif"][0] + 1,
+                                                     ch.arr(ctx, "nlast")[0] == self.T)), kind="post-normal")
+        ctx.oblige("ensures.parents-at-least-as-recent[C04 a parent is modified whenever one of its children is]",
+                   z3.Implies(self.has_value, z3.ForAll([ql], z3.Implies(z3.And(1 <= ql, ql <= ch.D),
+                                                                         ch.arr(ctx, "lmt")[ql] >= self.pre["lmt"][ql]))),
+                   kind="post-normal")
+
+
+class OwnershipOps(Obj):
+    cls = "TSDataOwnershipOps"
+
+    def __init__(self, k):
+        Obj.__init__(self, name="ownership_ops")
+        self.k = k
+
+    def member(self, ctx, name, node):
+        k = self.k
+        if name == "child_count":
+            return Ptr(FnPtr(lambda I, a, n: k.nchildren), z3.BoolVal(False))
+        if name == "child_at":
+            return Ptr(FnPtr(lambda I, a, n: ChildRef(k, I.ctx.rv(a[2]))), z3.BoolVal(False))
+        raise Gap("ownership ops member %s" % name)
+
+
+class CurrentView(Obj):
+    cls = "TSDataView"
+
+    def __init__(self, k):
+        Obj.__init__(self, name="current")
+        self.k = k
+
+    def m_has_current_value(self, I, args, n):
+        return self.k.has_value
+
+    def m_ops(self, I, args, n):
+        return self.k.table
+
+    def m_data(self, I, args, n):
+        return Ptr(MemLevel(self.k.ch, z3.IntVal(0)), z3.BoolVal(False))
+
+
+KERNELS += [Invalidate]
